@@ -1,6 +1,7 @@
 package main
 
 import (
+	"sync/atomic"
 	"bufio"
 	"fmt"
 	"os"
@@ -9,8 +10,17 @@ import (
 
 // emitSession runs the case on the real server and writes case + observation.
 func emitSession(c *runCfg, cs *caseT) {
+	// every hanging connection costs the full idle timeout: once several cases hung (each of them is
+	// reported as a violation) the remaining cases of the run are not started any more
+	if hangTotal.Load() >= maxHangs {
+		c.stat("skipped_after_hangs")
+		return
+	}
 	setInflight("(sess " + cs.id + " " + cs.class + " " + cs.sxHead() + ")")
 	o := runSession(cs)
+	if o.hang {
+		hangTotal.Add(1)
+	}
 	c.out.line("(sess " + cs.id + " " + cs.class + " " + cs.sxHead() + " " + o.sx(isSSLRequest(cs.raw)) + ")")
 	c.stat("class_" + cs.class)
 	if o.hang {
@@ -139,3 +149,8 @@ func runSESS(c *runCfg) error {
 	}
 	return nil
 }
+
+// number of connections which did not finish within the idle timeout in this run
+var hangTotal atomic.Int64
+
+const maxHangs = 6
